@@ -36,6 +36,8 @@ class Pipe:
             room = self.cut_at - self.total_written
             if room <= 0:
                 self.total_written += len(data)
+                self.closed = True
+                self.sc.yield_point("write", self.name)
                 return
             if len(data) > room:
                 self.buf += data[:room]
@@ -97,10 +99,36 @@ class _In:
         self.p.reader_closed = True
 
 
+class _Sock:
+    """a socket object over two Pipes, for the REAL gateway_socket.SocketIO"""
+
+    def __init__(self, out_pipe, in_pipe):
+        self.o, self.i = out_pipe, in_pipe
+
+    def setsockopt(self, *a):
+        pass
+
+    def recv(self, n):
+        return self.i.read(n)
+
+    def sendall(self, data):
+        self.o.write(data)
+
+    def shutdown(self, how):
+        if how == 0:
+            self.i.reader_closed = True
+        else:
+            self.o.close()
+
+    def close(self):
+        self.shutdown(0)
+        self.shutdown(1)
+
+
 class Pair:
     """sc: scheduler; remote_backend: 'thread' | 'main_thread_only'"""
 
-    def __init__(self, sc: S.Sched, remote_backend="thread", seed=0, cut_w2i=None, chunked=True):
+    def __init__(self, sc: S.Sched, remote_backend="thread", seed=0, cut_w2i=None, chunked=True, io_kind="popen"):
         import execnet
         from execnet import gateway_base as gb
         from execnet.xspec import XSpec
@@ -118,8 +146,14 @@ class Pair:
         self.em_w = S.SchedExecModel(sc, remote_backend)
         self.i2w = Pipe(sc, "i2w", random.Random(rng.random()) if chunked else None)
         self.w2i = Pipe(sc, "w2i", random.Random(rng.random()) if chunked else None, cut_at=cut_w2i)
-        self.io_i = gb.Popen2IO(_Out(self.i2w), _In(self.w2i), self.em_i)
-        self.io_w = gb.Popen2IO(_Out(self.w2i), _In(self.i2w), self.em_w)
+        if io_kind == "socket":
+            from execnet.gateway_socket import SocketIO
+
+            self.io_i = SocketIO(_Sock(self.i2w, self.w2i), self.em_i)
+            self.io_w = SocketIO(_Sock(self.w2i, self.i2w), self.em_w)
+        else:
+            self.io_i = gb.Popen2IO(_Out(self.i2w), _In(self.w2i), self.em_i)
+            self.io_w = gb.Popen2IO(_Out(self.w2i), _In(self.i2w), self.em_w)
         self.io_i.wait = lambda: 0
         self.io_i.kill = lambda: None
         spec = XSpec("popen//id=pair")
